@@ -55,12 +55,14 @@ def _drive(args):
         for tid in range(lo, hi):
             r = drv.rng(seed, 'c12', cfgspec, codec, tid)
             m = {'MTI': '1240'}
-            style = r.choice(('many-small', 'fill-carriers', 'zero', 'headerlike', 'mixed'))
+            style = r.choice(('many-small', 'fill-carriers', 'zero', 'headerlike', 'mixed')) if tid % 12 else 'many-tiny'
             budget = ncar * 999
             used = 0
-            tags = r.sample(range(1, 10000), r.choice((1, 2, 3, 6, 12, 30)))
+            tags = r.sample(range(1, 10000), r.choice((1, 2, 3, 6, 12, 30)) if style != 'many-tiny' else r.choice((130, 260, 400)))
             for t in sorted(tags):
-                if style == 'many-small':
+                if style == 'many-tiny':
+                    n = r.choice((0, 1, 2))
+                elif style == 'many-small':
                     n = r.randrange(0, 60)
                 elif style == 'fill-carriers':
                     n = r.choice((992, 985, 500, 492, 493, 300, r.randrange(0, 993)))
